@@ -540,6 +540,12 @@ class Result:
             self.bad(rid, instance, Finding(rid, mod, node, construct, message, qualname))
         return cond
 
+    def refuse(self, text):
+        """an obligation that could not be decided (construct outside the vocabulary of an evaluated rule)"""
+        if not hasattr(self, "refusals"):
+            self.refusals = []
+        self.refusals.append(text)
+
     def note(self, text):
         self.notes.append(text)
 
@@ -553,10 +559,21 @@ class Result:
             n = len(self.instances.get(rid, []))
             if n < low:
                 short.append((rid, n, low))
-        if not short:
+        refusals = getattr(self, "refusals", [])
+        if not short and not refusals:
             return
         known = {k.get("key") for k in load_known().get("known", []) if k.get("property") in (None, self.pid)}
         new = [f for f in self.findings if f.key not in known]
+        if refusals:
+            # cases an evaluated rule could not decide: with a pinpointed violation elsewhere they are notes, alone
+            # they are a refusal (exit 2) — never a silent pass
+            if new:
+                for r in refusals:
+                    self.note("not decided: %s" % r)
+            else:
+                raise AnalysisError("%s%s" % (refusals[0], " (and %d more undecided cases)" % (len(refusals) - 1) if len(refusals) > 1 else ""))
+        if not short:
+            return
         if new:
             for rid, n, low in short:
                 self.note("rule %s matched %d instances, fewer than the %d confirmed by hand (reported together with %d new finding(s))" % (rid, n, low, len(new)))
